@@ -24,6 +24,7 @@ func init() {
 		Rule{ID: "R18c", Doc: "acquired resources are released on later error paths", Floor: 6, Run: r18c},
 		Rule{ID: "R18d", Doc: "router close completeness; no panic/exit in run", Floor: 8, Run: r18d},
 		Rule{ID: "R18e", Doc: "late dial results are closed, not published", Floor: 4, Run: r18e},
+		Rule{ID: "R18g", Doc: "Close closes every registered connection", Floor: 2, Run: r18g},
 	)
 }
 
@@ -1087,4 +1088,60 @@ func r18e(c *core.Ctx) {
 		c.Check(sets && closes && cancels, "transport-close-effects:"+t.fn, fn.Pos(), fn, "Close marks the transport closed, closes tracked connections and cancels the transport context", fmt.Sprintf("sets=%v closes=%v cancels=%v", sets, closes, cancels))
 	}
 	_ = sort.Strings
+}
+
+// ---- R18g ----
+
+// r18g: ReuseConnTransport.Close closes every connection of the set in which asyncDial registers
+// every new connection (not merely the idle ones); QuicTransport.Close closes the current connection.
+func r18g(c *core.Ctx) {
+	cl := c.Anchor("internal/upstream/transport", "(*ReuseConnTransport).Close")
+	ad := c.Anchor("internal/upstream/transport", "(*ReuseConnTransport).asyncDial$1")
+	if cl == nil || ad == nil {
+		return
+	}
+	// the registry: the map field updated with the freshly created connection in asyncDial
+	reg := ""
+	for _, f := range []string{"conns", "idleConns"} {
+		for _, op := range mapOps(c, "ReuseConnTransport", f) {
+			if op.Fn == ad && op.Kind == "update" {
+				reg = f
+			}
+		}
+	}
+	if reg == "" {
+		c.Bad("conn-registry", ad.Pos(), ad, "asyncDial registers every new connection in a transport-wide set", "no map insert found")
+		return
+	}
+	// every other insert into a connection set is a subset relation: idleConns only receives registered conns (R06a)
+	ranged := ""
+	var closeCall ssa.CallInstruction
+	for _, op := range mapOps(c, "ReuseConnTransport", reg) {
+		if op.Fn == cl && op.Kind == "range" {
+			ranged = reg
+		}
+	}
+	for _, call := range core.Calls(cl) {
+		if call.Common().IsInvoke() && call.Common().Method.Name() == "Close" {
+			closeCall = call
+		}
+	}
+	c.Check(ranged == reg, "close-ranges-registry", cl.Pos(), cl, "Close iterates the set of ALL registered connections (t."+reg+"), busy ones included", "")
+	okRecv := closeCall != nil && strings.Contains(core.Expr(closeCall.Common().Value), "range(t."+reg+")")
+	c.Check(okRecv, "close-closes-each", cl.Pos(), cl, "Close closes the socket of every connection in that set", "")
+	// connections leave the registry only when they are closed (releaseConn error edge, getIdleConn closed edge)
+	for _, op := range mapOps(c, "ReuseConnTransport", reg) {
+		if op.Kind != "delete" {
+			continue
+		}
+		fn := op.Fn
+		ok := false
+		switch {
+		case strings.HasSuffix(core.FuncName(fn), ".releaseConn"):
+			ok = core.NilAt(fn.Params[2], op.In.Block()) == core.NonNil
+		case strings.HasSuffix(core.FuncName(fn), ".getIdleConn"):
+			ok = hasCond(op.In.Block(), ".exitIdle()", true)
+		}
+		c.Check(ok, "deregistered-only-when-closed:"+core.FuncName(fn), op.In.Pos(), fn, "a connection is removed from the registry only after it was closed", condList(op.In.Block()))
+	}
 }
